@@ -185,6 +185,56 @@ def dup_enum_value(root, rng):
     return Injection("duplicate-enum-value", False, f, [("ef#", e, 2), ("ef#", e, 1)])
 
 
+def _dup_in_sequence(what: str):
+    """A duplicate in a longer sequence of values in every order relation to its neighbours: ascending, descending and shuffled
+    sequences, the duplicate above or below the value declared right before it, first/middle/last position, decimal or hex spelling.
+    what: 'enum-value' | 'field-number' | 'field-name' | 'enum-member-name'."""
+    def fn(root, rng):
+        n = rng.randint(3, 9)
+        order = rng.choice(["ascending", "descending", "shuffled", "shuffled"])
+        if what in ("enum-value", "enum-member-name"):
+            f, scope = scopes(root, rng)
+            w = rng.choice([3, 4, 8, 16, 33])
+            vals = rng.sample(range(0, min(1 << w, 4000)), min(n, 1 << w)) if w > 3 else rng.sample(range(8), min(n, 8))
+        else:
+            f, scope = new_message(root, rng)
+            vals = rng.sample(range(1, 256), n)
+        if order == "ascending":
+            vals.sort()
+        elif order == "descending":
+            vals.sort(reverse=True)
+        j = rng.randrange(len(vals))                 # the original
+        i = rng.randint(j + 1, len(vals))            # where the duplicate goes (after the original)
+        if what == "enum-value":
+            names = [fresh("SIERRA_V").upper() for _ in range(len(vals) + 1)]
+            seq = list(vals)
+            seq.insert(i, vals[j])
+            e = Enum(fresh("Sierra"), w, list(zip(names, seq)))
+            e.hex_members = rng.random() < 0.3
+            insert(scope, e, rng)
+            return Injection(f"duplicate-enum-value:{order}", False, f, [("ef#", e, i), ("ef#", e, j)])
+        if what == "enum-member-name":
+            names = [fresh("SIERRA_N").upper() for _ in range(len(vals))]
+            names.insert(i, names[j])
+            extra = next(v for v in range(1 << w) if v not in vals)
+            seq = list(vals)
+            seq.insert(i, extra)
+            e = Enum(fresh("Sierra"), w, list(zip(names, seq)))
+            insert(scope, e, rng)
+            return Injection(f"duplicate-enum-member-name:{order}", False, f, [("ef#", e, i), ("ef#", e, j)])
+        m = scope
+        fields = [Field(f"f_{k}_x", Base("uint", rng.randint(1, 9)), v) for k, v in enumerate(vals)]
+        if what == "field-number":
+            fields.insert(i, Field("dup_number", Base("bool"), vals[j]))
+        else:
+            extra = next(v for v in range(1, 256) if v not in vals)
+            fields.insert(i, Field(fields[j].name, Base("bool"), extra))
+        for fl in fields:
+            m.add(fl)
+        return Injection(f"duplicate-{what}:{order}", False, f, [fields[i], fields[j]])
+    return fn
+
+
 def _enum_value(w: int, over: bool):
     def fn(root, rng):
         f, scope = scopes(root, rng)
@@ -589,6 +639,12 @@ _reg("duplicate-type-name", dup_type_name)
 _reg("duplicate-constant-name", dup_const_name)
 _reg("duplicate-enum-member-name", dup_enum_member_name)
 _reg("duplicate-enum-value", dup_enum_value)
+for _k in range(3):
+    _reg(f"duplicate-enum-value:in-sequence:{_k}", _dup_in_sequence("enum-value"))
+_reg("duplicate-enum-member-name:in-sequence", _dup_in_sequence("enum-member-name"))
+for _k in range(2):
+    _reg(f"duplicate-field-number:in-sequence:{_k}", _dup_in_sequence("field-number"))
+_reg("duplicate-field-name:in-sequence", _dup_in_sequence("field-name"))
 for _w in (1, 3, 8, 9, 32, 64):
     _reg(f"enum-value:over:w{_w}", _enum_value(_w, True))
     _reg(f"enum-value:max:w{_w}", _enum_value(_w, False))
